@@ -317,9 +317,8 @@ class Ref(object):
             if st[1] != 0 and st[1] not in self.index:
                 raise _Error(8)
             self.trap = st[1]
-            if st[1] != 0:
-                self.trap_was_set = True
-            elif self.failed is not None:
+            self.trap_was_set = st[1] != 0    # ON ERROR GOTO 0: float errors are soft-handled again
+            if st[1] == 0 and self.failed is not None:
                 # ON ERROR GOTO 0 inside the handler: the trapped error stops the program
                 self.events.append('goto0-in-handler')
                 self.note('event:goto0-in-handler')
@@ -356,6 +355,7 @@ class Ref(object):
         elif k == 'RUN':
             self.trap, self.failed, self.err, self.erl = 0, None, 0, 0
             self.flags, self.g, self.stack = set(), 0, []
+            self.trap_was_set = False         # RUN starts afresh: float errors are soft-handled again
             return (0, 0)
         else:
             raise ValueError(st)
@@ -760,7 +760,7 @@ class Impl(object):
             self.close()
             self.open()
         s = self.session
-        # ON ERROR GOTO 0 also switches the soft handling of float errors back on (RUN / NEW do not)
+        # ON ERROR GOTO 0 switches trapping off and the soft handling of float errors back on
         s.execute(b'ON ERROR GOTO 0')
         s.execute(b'CLOSE')
         s.execute(b'NEW')
